@@ -2,7 +2,7 @@
    states [C08.doc_states]; the CProbe clause of C08.step_spec holds of the model. *)
 From LC Require Import Lib.Bytes Lib.Lex Lib.Fields Lib.PathM Gen.Consts
   Model.MountInfo Model.FsTree Model.Kernel Model.Layers Cases.Verdict Cases.LC Cases.C08
-  Proofs.MonadP Proofs.MountInfoP Proofs.PlainRunP Proofs.LayerMapP Proofs.LayerStateP
+  Proofs.MountInfoP Proofs.PlainRunP Proofs.LayerMapP Proofs.LayerStateP
   Proofs.StateForestP Proofs.ViewP Proofs.C08FoldP Proofs.C08DocP Proofs.C08P Proofs.LayerNamesP.
 From Coq Require Import Sorting.Permutation.
 Open Scope N_scope.
@@ -121,7 +121,8 @@ Proof. unfold sort_lobs. induction l as [|x r IH]; cbn [fold_right length]; [ref
 
 Lemma probed_overlain c f um ld l : l_overlain (probed c f um ld l) = l_overlain l.
 Proof.
-  unfold probed. destruct (negb (is_dir f (build_path c l))); [reflexivity|].
+  unfold probed. destruct (l_state l =? st_error); [reflexivity|].
+  destruct (negb (is_dir f (build_path c l))); [reflexivity|].
   destruct (match l_base l with [] => false | _ => true end
             && (negb (is_dir f (work_path c l)) || negb (is_dir f (upper_path c l)))); [reflexivity|].
   destruct (find_layerstate_flags c f ld
@@ -142,9 +143,10 @@ Definition sources_agree (c : cfgT) (w : wobs) : bool :=
 (* the 64 path.Dir steps of the model's inAnyLayerDirectory are enough *)
 Definition dir_test_agrees (c : cfgT) (w : wobs) : bool :=
   all_imports (dir_test_one c) c (wo_fs w).
-(* no foreign mount on an import mountpoint whose host source directory is missing *)
-Definition no_foreign_on_missing_source (c : cfgT) (w : wobs) : bool :=
-  all_imports (no_foreign_one c (wo_fs w) (ks_tab (wo_ks w))) c (wo_fs w).
+(* no import mountpoint with a missing host source directory that still carries the configured
+   mount (layercake calls ANY mount there incorrect, the documented state is "inhabited") *)
+Definition no_shown_on_missing_source (c : cfgT) (w : wobs) : bool :=
+  all_imports (no_shown_one c (wo_fs w) (ks_tab (wo_ks w))) c (wo_fs w).
 (* no two layer directories with the same name *)
 Definition layer_names_distinct (c : cfgT) (w : wobs) : bool :=
   nodup_paths (map l_name (layers_on_disk c (wo_fs w))).
@@ -215,21 +217,17 @@ Proof.
   { intros a b (Ha1 & Ha2 & Ha3) Hna. split; [exact Ha1|]. split; [exact Ha2|]. now rewrite Hassoc_o. }
   assert (Hout' : forall n', lm_get m n' = None -> C08.assoc_state (acc ++ [(n, d)]) n' = None).
   { intros n' Hn'. rewrite Hassoc_o; [now apply Hout|]. intros ->. congruence. }
-  rewrite probe_layer_eq, El.
-  destruct (l_state l =? st_error) eqn:Eerr.
-  - (* the layerconfig did not load cleanly: nothing is probed *)
-    split; [exact Hp|]. split; [|exact Hout'].
-    rewrite <- (lm_set_same _ _ _ El).
-    apply (F2_set (pairrel acc) (pairrel (acc ++ [(n, d)])) m (ld_map ld) n x l (pairrel_name acc) Hnd HF Hx);
-      [now apply (lm_get_name _ _ _ El)|exact Hoth|].
-    split; [exact Hl|]. split; [exact Hov|]. rewrite Hxn, Hassoc_n.
-    unfold d. rewrite doc_state_one_eq. rewrite <- Hst, Eerr. now apply N.eqb_eq.
-  - cbn [ld_probe ld_map]. split; [exact Hp|]. split; [|exact Hout'].
-    apply (F2_set (pairrel acc) (pairrel (acc ++ [(n, d)])) m (ld_map ld) n x _ (pairrel_name acc) Hnd HF Hx).
-    + destruct (probed_lsim c f um ld l) as (Hpn & _). rewrite <- Hpn. now apply (lm_get_name _ _ _ El).
-    + exact Hoth.
-    + split; [eapply lsim_trans; [exact Hl|apply probed_lsim]|].
-      split; [now rewrite probed_overlain|]. rewrite Hxn, Hassoc_n. unfold d.
+  rewrite probe_layer_eq, El. cbn [ld_probe ld_map]. split; [exact Hp|]. split; [|exact Hout'].
+  apply (F2_set (pairrel acc) (pairrel (acc ++ [(n, d)])) m (ld_map ld) n x _ (pairrel_name acc) Hnd HF Hx).
+  - destruct (probed_lsim c f um ld l) as (Hpn & _). rewrite <- Hpn. now apply (lm_get_name _ _ _ El).
+  - exact Hoth.
+  - split; [eapply lsim_trans; [exact Hl|apply probed_lsim]|].
+    split; [now rewrite probed_overlain|]. rewrite Hxn, Hassoc_n.
+    destruct (l_state x =? st_error) eqn:Eerr.
+    + (* the layerconfig did not load cleanly: users and mounts are recorded, the state stays *)
+      unfold d. rewrite doc_state_one_eq, Eerr. unfold probed. rewrite Hst, Eerr.
+      cbn [set_kmounts classify_users set_busy l_state]. rewrite Hst. now apply N.eqb_eq.
+    + unfold d.
       apply (probed_state_doc c f tab um ld ms n x l ps Hci Hdirs Hmsim Hp Hms Hx).
       * rewrite <- Hxn. now apply Hne.
       * rewrite <- Hxn. now apply Himp.
@@ -248,7 +246,8 @@ Proof.
            rewrite (lm_get_name _ _ _ Exb), Ep in Hbst. rewrite Hbst.
            destruct (read_layer_files_facts c f xb (lm_get_in _ _ _ Exb)) as [Hlt _].
            unfold st_complete, st_mountable in *. lia.
-      * rewrite <- Hst. exact Eerr.
+      * exact Hst.
+      * exact Eerr.
 Qed.
 
 Lemma fold_Inv ns : NoDup ns -> (forall n, In n ns -> In n (map l_name m)) ->
@@ -303,7 +302,7 @@ Theorem state_is_documented_partial cfg w e um :
   layer_names_distinct cfg w = true ->
   sources_agree cfg w = true ->
   dir_test_agrees cfg w = true ->
-  no_foreign_on_missing_source cfg w = true ->
+  no_shown_on_missing_source cfg w = true ->
   C08.step_spec cfg w (view_of_model cfg w e CProbe um) = true.
 Proof.
   intros Hwt Hdirs Hnames Hsrc Hdt Hnf. unfold view_of_model.
